@@ -355,6 +355,20 @@ class MixinUserOption(_KeyReaderMixin, labrea.types.Evaluatable):
         return f"MixinUserOption({self.key!r})"
 
 
+class OddConstant:
+    """A constant object whose deepcopy raises something other than TypeError (as a multiprocessing lock or a ctypes pointer does)."""
+
+    def __init__(self, name, exc):
+        self.name = name
+        self.exc = exc
+
+    def __deepcopy__(self, memo):
+        raise {"RuntimeError": RuntimeError, "ValueError": ValueError, "RecursionError": RecursionError}[self.exc](f"{self.name} cannot be copied")
+
+    def __repr__(self):
+        return f"OddConstant({self.name})"
+
+
 class PartialBodyError(ValueError):
     pass
 
@@ -405,6 +419,10 @@ def _body_impl(name, selector=False, mutates=(), fails_if=None, returns=None):
                     kw[a].append("§mutated")
                 elif isinstance(kw.get(a), dict):
                     kw[a]["§mutated"] = 1
+                elif isinstance(kw.get(a), tuple):
+                    for member in kw[a]:
+                        if isinstance(member, list):
+                            member.append("§mutated")
             return value
 
     return impl
@@ -585,6 +603,10 @@ class Program:
         return getattr(self, "_b_" + k)(n)
 
     def _b_val(self, n):
+        if n.get("nocopy"):
+            return Value(OddConstant(n["id"], n["nocopy"]))
+        if n.get("wrap") == "tuple":
+            return Value((copy.deepcopy(n["v"]),))
         return Value(copy.deepcopy(n["v"]))
 
     def _b_alloptions(self, n):
